@@ -10,6 +10,9 @@ var strVals = []string{"", "x", "y", "-1", "$", "long string"}
 
 func genItems(r *vh.Rng, cur []Item) []Item {
 	out := append([]Item{}, cur...)
+	if len(out) > 0 && r.Chance(15) {
+		return []Item{} // the list becomes empty
+	}
 	for ops := 1 + r.Intn(3); ops > 0; ops-- {
 		switch r.Intn(8) {
 		case 0, 1: // insert
@@ -148,20 +151,29 @@ func GenCase(r *vh.Rng, flavor string) Case {
 			// a mutation with the same id, a context cancellation or the socket closing
 			id := IDPool[r.Intn(3)]
 			f := Fields[r.Intn(len(Fields))]
+			mode := r.Pick([]string{"block", "hold"}) // the resolver gives up on cancellation / ignores it and returns its value
 			c.Ops = append(c.Ops, Op{Op: "unsubscribe", ID: id, Sync: "settle"})
 			if r.Bool() {
 				c.Ops = append(c.Ops, Op{Op: "subscribe", ID: id, Q: fieldQuery[f], Sync: "settle"},
-					Op{Op: "fail", Field: f, N: 1, Mode: "block", Sync: "none"})
+					Op{Op: "fail", Field: f, N: 1, Mode: mode, Sync: "none"})
 			} else {
-				c.Ops = append(c.Ops, Op{Op: "fail", Field: f, N: 1, Mode: "block", Sync: "none"},
+				c.Ops = append(c.Ops, Op{Op: "fail", Field: f, N: 1, Mode: mode, Sync: "none"},
 					Op{Op: "subscribe", ID: id, Q: fieldQuery[f], Sync: "none"})
 			}
 			live[id] = true
 			c.Ops = append(c.Ops, Op{Op: "awaitblock"})
 			switch j := r.Intn(10); {
 			case j < 5:
-				c.Ops = append(c.Ops, Op{Op: "unsubscribe", ID: id, Sync: "settle"})
+				c.Ops = append(c.Ops, Op{Op: "unsubscribe", ID: id, Sync: r.Pick([]string{"handled", "settle", "none"})})
 				delete(live, id)
+				if r.Bool() {
+					c.Ops = append(c.Ops, Op{Op: "echo", ID: IDPool[r.Intn(len(IDPool))], Sync: "handled"})
+				}
+				if r.Bool() {
+					c.Ops = append(c.Ops, Op{Op: "set", Field: "a", Int: int64(2 + r.Intn(3)), Sync: "none"},
+						Op{Op: "subscribe", ID: id, Q: fieldQuery[f], Sync: "settle"})
+					live[id] = true
+				}
 			case j < 7:
 				c.Ops = append(c.Ops, Op{Op: "mutate", ID: id, Q: r.Intn(FirstBadMutQuery), Sync: "none"},
 					Op{Op: "unsubscribe", ID: id, Sync: "settle"})
@@ -330,7 +342,7 @@ func Variant(r *vh.Rng, seed Case) Case {
 			}
 		case 6: // a computation is in flight when the step happens
 			f := Fields[r.Intn(len(Fields))]
-			c.Ops = insertOps(c.Ops, i, Op{Op: "fail", Field: f, N: 1, Mode: "block", Sync: "none"}, Op{Op: "awaitblock"})
+			c.Ops = insertOps(c.Ops, i, Op{Op: "fail", Field: f, N: 1, Mode: r.Pick([]string{"block", "hold"}), Sync: "none"}, Op{Op: "awaitblock"})
 		case 7: // the asynchronous close of the step's id is held while the next steps happen
 			if id := c.Ops[i].ID; id != "" {
 				c.Ops = insertOps(c.Ops, i+1, Op{Op: "awaitpause", ID: id})
